@@ -147,66 +147,47 @@ def r2(ctx, cfg):
     if agg is None:
         ctx.fail(R, key, "anchor-missing", "no AppResponse aggregate in build_app_response", fn=f)
         return
-    ev_op = agg[2]["rv"]["ops"][agg[2]["rv"]["fields"].index("events")]
-    ev_local = None
-    # follow moves back to the user variable
-    o = ev_op
-    seen = 0
-    while o["k"] in ("copy", "move") and not o["place"]["p"] and seen < 5:
-        l = o["place"]["l"]
-        defs = [d for d in P.defs(f).get(l, []) if d[0] == "assign" and d[3]["rv"]["k"] == "use"]
-        if len(P.defs(f).get(l, [])) == 1 and defs:
-            o = defs[0][3]["rv"]["op"]
-            seen += 1
-            continue
-        ev_local = l
-        break
-    muts = P.mutations(f, ev_local) if ev_local is not None else []
-    pushes = []
-    for bid, t, ai in muts:
-        args = P.call_args(f, t, bid)
-        name = t["callee"]["name"]
-        pushes.append((bid, t, name, args))
-    custom = [(b, t) for b, t, n, a in pushes if n == "push" and is_param(a[1], "custom_event")]
-    wasm = []
-    ext = []
-    for b, t, n, a in pushes:
-        if n == "push" and not is_param(a[1], "custom_event"):
-            wasm.append((b, t, a))
-        elif n in ("extend", "append", "extend_from_slice"):
-            ext.append((b, t, a))
-    ctx.ob(R, key, "three-mutations-of-events-vector", len(custom) == 1 and len(wasm) == 1 and len(ext) == 1 and len(pushes) == 3,
-           "events vector is mutated by %s" % [n for b, t, n, a in pushes], fn=f,
-           sample="push(custom_event), push(wasm_event), extend(wasm-*)")
-    if not (len(custom) == 1 and len(wasm) == 1 and len(ext) == 1):
+    # what the events vector is made of, in build order - form-agnostic (vlib/pipeline.py): the custom events may come
+    # from `extend(events.into_iter().map(rename))` or from `for ev in events { rename; push(ev) }`
+    from vlib import pipeline
+    o_agg = P.rvalue(f, agg[2]["rv"], (agg[0], agg[1]))
+    ev_o = dict(o_agg[2])["events"]
+    cs = pipeline.contents(P, F, f, ev_o)
+    d = [(c.kind, c.how.strip()) for c in cs]
+    custom = [c for c in cs if c.kind == "single" and is_param(c.expr, "custom_event")]
+    wasm = [c for c in cs if c.kind == "single" and not is_param(c.expr, "custom_event")]
+    ext = [c for c in cs if c.kind in ("expr", "all-of")]
+    ctx.ob(R, key, "three-mutations-of-events-vector", len(custom) == 1 and len(wasm) == 1 and len(ext) == 1 and len(cs) == 3,
+           "events vector is built from %s" % d, fn=f, sample="push(custom_event), push(wasm_event), the renamed custom events")
+    if not (len(custom) == 1 and len(wasm) == 1 and len(ext) == 1 and len(cs) == 3):
         return
-    cb, wb, eb = custom[0][0], wasm[0][0], ext[0][0]
-    ctx.ob(R, key, "entry-point-event-first", cfgf.dominates(cb, wb) and cfgf.dominates(cb, eb),
-           "push(custom_event) does not dominate the other pushes", fn=f, line=custom[0][1]["line"],
-           sample="push(custom_event) dominates both")
-    ctx.ob(R, key, "wasm-event-before-custom-events", not cfgf.can_reach(eb, wb) and cfgf.can_reach(wb, eb),
-           "a path leads from extend(wasm-*) to push(wasm_event)", fn=f, line=wasm[0][1]["line"],
-           sample="no path extend -> push(wasm_event)")
-    ctx.ob(R, key, "custom-events-always-appended", cfgf.must_pass(eb, agg[0]),
-           "extend(wasm-*) is not on every path to the response", fn=f, sample="extend on every path")
+    ctx.ob(R, key, "entry-point-event-first", cs[0] is custom[0] and not custom[0].conds,
+           "the entry point's own event is not unconditionally the first one", fn=f, sample="push(custom_event) first, unconditional")
+    ctx.ob(R, key, "wasm-event-before-custom-events", cs[1] is wasm[0] and cs[2] is ext[0],
+           "the wasm event does not precede the contract's custom events", fn=f, sample="custom_event, wasm, wasm-*")
+    eb = ext[0].site[1] if ext[0].site and ext[0].site[0] == f.key else None
+    loops = q.enclosing_loops(P, f, eb) if eb is not None else []
+    always = eb is not None and (cfgf.must_pass(loops[0][0] if loops else eb, agg[0]))
+    ctx.ob(R, key, "custom-events-always-appended", always and not ext[0].conds and not ext[0].adapters,
+           "the custom events are not appended on every path / not all of them / not in order (conds %s, adapters %s)" % (ext[0].conds, ext[0].adapters), fn=f,
+           sample="all of response.events, in order, on every path")
     # wasm event only when attributes are present
-    conds = q.dominating_conditions(P, f, wb)
-    ok = q.has_cond(conds, "is_empty", pol=False, arg_pred=lambda a: contains(a[0], lambda x: x[0] == "field" and x[2] == "attributes"))
-    ctx.ob(R, key, "wasm-event-iff-attributes", ok, "push(wasm_event) is not guarded by !attributes.is_empty()", fn=f,
-           line=wasm[0][1]["line"], sample="guard: !attributes.is_empty()")
-    lit, attrs, bulk = parse_event(wasm[0][2][1])
+    wc = wasm[0].conds
+    ok = len(wc) == 1 and wc[0][0] == "is_empty" and wc[0][2] is False and contains(wc[0][1][0], lambda x: x[0] == "field" and x[2] == "attributes")
+    ctx.ob(R, key, "wasm-event-iff-attributes", ok, "push(wasm_event) is not guarded by exactly !attributes.is_empty(): %s" % (wc,), fn=f,
+           sample="guard: !attributes.is_empty()")
+    lit, attrs, bulk = parse_event(wasm[0].expr)
     ok = lit == ("const", "str", "wasm") and len(attrs) == 1 and peel(attrs[0][0]) == CONTRACT_ATTR and \
         is_param(attrs[0][1], "contract") and len(bulk) == 1 and \
         contains(bulk[0], lambda x: x[0] == "field" and x[2] == "attributes" and is_param(x[1], "response"))
     ctx.ob(R, key, "wasm-event-shape", ok,
            "wasm event must be Event::new(\"wasm\") + (_contract_address, contract) + the response's attributes", fn=f,
-           line=wasm[0][1]["line"], sample="Event::new('wasm').add_attribute(CONTRACT_ATTR, contract).add_attributes(attributes)")
-    # custom events come from response.events through the mapping closure
-    src = peel(ext[0][2][1])
-    ok = src[0] == "call" and src[1] == "std::iter::Iterator::map" and contains(
-        src[2][0], lambda x: x[0] == "field" and x[2] == "events" and is_param(x[1], "response"))
-    ctx.ob(R, key, "custom-events-from-response.events", ok, "extend source is %s" % fmt(src)[:160], fn=f,
-           line=ext[0][1]["line"], sample="response.events.into_iter().map(rename)")
+           sample="Event::new('wasm').add_attribute(CONTRACT_ATTR, contract).add_attributes(attributes)")
+    # custom events come from response.events
+    src = peel(ext[0].src) if ext[0].src is not None else ("?",)
+    ok = src[0] == "field" and src[2] == "events" and is_param(src[1], "response")
+    ctx.ob(R, key, "custom-events-from-response.events", ok, "the appended events come from %s" % fmt(src)[:160], fn=f,
+           sample="response.events")
     # data passes through unchanged, messages returned unchanged
     o = P.rvalue(f, agg[2]["rv"], (agg[0], agg[1]))
     d = peel(dict(o[2])["data"])
@@ -222,46 +203,60 @@ def r2(ctx, cfg):
 
 
 def r3(ctx, cfg):
+    """every custom event is renamed `wasm-<ty>` and gets (_contract_address, contract) as its first attribute; nothing
+    else about it changes.  Read from the origin of the stored element (closure result or pushed loop variable)."""
+    from vlib import pipeline
     F, P = cfg.facts, cfg.prov
     R = "C04.R3"
     key = W + "build_app_response"
-    clos = [g for g in F.lexical(key) if g.kind == "closure"]
-    ctx.ob(R, key, "one-mapping-closure", len(clos) == 1, "expected one mapping closure, found %d" % len(clos),
-           fn=F.fn(key), sample="1")
-    if len(clos) != 1:
+    f = F.fn(key)
+    if f is None:
         return
-    g = clos[0]
-    ev = g.arg_index("ev") or 2
-    # mutations of ev.attributes
-    muts = []
-    for bid, t in g.calls():
-        if not t["args"]:
-            continue
-        a0 = peel(P.operand(g, t["args"][0], (bid, "t")))
-        if contains(a0, lambda x: x[0] == "field" and x[2] == "attributes") and t["callee"].get("inputs") and \
-                t["callee"]["inputs"][0].get("ref") == "mut":
-            muts.append((bid, t))
-    ok = len(muts) == 1 and muts[0][1]["callee"]["key"] == "std::vec::Vec::insert"
-    d = [t["callee"]["key"] for b, t in muts]
+    agg = None
+    for bid, i, st in f.stmts():
+        rv = st.get("rv", {})
+        if st["k"] == "assign" and rv.get("k") == "aggregate" and rv.get("adt") == "executor::AppResponse":
+            agg = (bid, i, st)
+    if agg is None:
+        return
+    o_agg = P.rvalue(f, agg[2]["rv"], (agg[0], agg[1]))
+    cs = [c for c in pipeline.contents(P, F, f, dict(o_agg[2])["events"]) if c.kind in ("expr", "all-of")]
+    ctx.ob(R, key, "one-mapping-closure", len(cs) == 1 and cs[0].body is not None, "expected one transformation of the custom events, found %d" % len(cs),
+           fn=f, sample="1")
+    if len(cs) != 1 or cs[0].body is None:
+        return
+    c = cs[0]
+    g = c.body
+    e = c.expr
+    while e[0] == "vp":
+        e = e[2]
+    base = e
+    updates = []
+    while base[0] == "upd":
+        updates.extend(base[2])
+        base = base[1]
+        while base[0] == "vp":
+            base = base[2]
+    ctx.ob(R, g.key, "returns-the-event", base[0] == "bound" and base[1] == "elem", "the stored event is %s" % fmt(e)[:100],
+           fn=g, sample="the element itself, updated in place")
+    tys = [v for pth, v in updates if pth == ("ty",)]
+    attr_muts = [v for pth, v in updates if pth[:2] == ("&mut", "attributes")]
+    other = [pth for pth, v in updates if pth != ("ty",) and pth[:2] != ("&mut", "attributes")]
+    ok = len(attr_muts) == 1 and attr_muts[0][0] == "mutby" and attr_muts[0][1] == "std::vec::Vec::insert" and not other
+    d = [(pth, v[1] if v[0] == "mutby" else fmt(v)[:40]) for pth, v in updates]
     if ok:
-        bid, t = muts[0]
-        args = P.call_args(g, t, bid)
-        idx = peel(args[1])
-        val = peel(args[2])
+        idx = peel(attr_muts[0][2][0])
+        val = peel(attr_muts[0][2][1])
         ok = idx == ("const", "int", 0) and val[0] == "call" and val[1].endswith("mock_wasmd_attr") and \
             peel(val[2][0]) == CONTRACT_ATTR and is_param(val[2][1], "contract")
         d = "insert(%s, %s)" % (fmt(idx), fmt(val)[:100])
     ctx.ob(R, g.key, "contract-address-inserted-first", ok,
-           "custom event attributes must get (_contract_address, contract) inserted at index 0; found %s" % d, fn=g,
+           "custom event attributes must get (_contract_address, contract) inserted at index 0 and nothing else may change; found %s" % (d,), fn=g,
            sample=str(d))
-    # ev.ty = format!("wasm-{}", ev.ty)
-    tys = [(bid, i, st) for bid, i, st in g.stmts() if st["k"] == "assign" and st["dst"]["l"] == ev and st["dst"]["p"]
-           and st["dst"]["p"][-1]["k"] == "field" and st["dst"]["p"][-1]["name"] == "ty"]
     ok = len(tys) == 1
     d = "no single assignment of ev.ty"
     if ok:
-        bid, i, st = tys[0]
-        fp = format_parts(P, g, P.rvalue(g, st["rv"], (bid, i)))
+        fp = format_parts(P, g, tys[0])
         d = "not a format!() result"
         ok = fp is not None
         if ok:
@@ -272,13 +267,6 @@ def r3(ctx, cfg):
                 contains(fargs[0][1], lambda x: x[0] == "field" and x[2] == "ty" and peel(x[1])[0] == "bound")
     ctx.ob(R, g.key, "type-renamed-wasm-prefix", ok, "ev.ty must be format!(\"wasm-{}\", ev.ty); found %s" % d,
            fn=g, sample=d)
-    # the closure returns ev itself
-    ret = peel(P.ret(g))
-    base = ret
-    while base[0] == "upd":
-        base = peel(base[1])
-    ctx.ob(R, g.key, "returns-the-event", base[0] == "bound" and base[1] == "elem", "closure returns %s" % fmt(ret)[:100],
-           fn=g, sample="returns the mapped element")
 
 
 def _consts_in(rv):
@@ -502,7 +490,12 @@ def r6(ctx, cfg):
     e = ctx.need_fn(R, ek)
     if e is not None:
         ret = peel(P.ret(e))
-        ok = ret[0] == "call" and ret[1] == "std::option::Option::map" and is_param(ret[2][0], "data")
+        # `data.map(encode)` or `match data { Some(d) => Some(encode(d)), None => None }`: same alternatives
+        al = [peel(x) for x in alts(ret)]
+        somes = [x for x in al if x[0] == "agg" and x[1].endswith("Option::Some")]
+        nones = [x for x in al if x[0] == "agg" and x[1].endswith("Option::None")]
+        ok = len(somes) >= 1 and len(nones) == 1 and len(al) == len(somes) + 1 and all(
+            contains(x[2][0][1], lambda y: y[0] == "some" and is_param(y[1], "data")) for x in somes)
         ctx.ob(R, ek, "only-present-data-is-wrapped", ok, "encode_response_data returns %s" % fmt(ret)[:100], fn=e,
                sample="data.map(encode)")
     # instantiate: data = Some(instantiate_response(res.data, &contract_addr))
